@@ -5,7 +5,8 @@ MC   LinearFile.tla: the graph file as cache/durable images, one action per I/O 
      sync, close, open) and Crash(plan) = every assignment of {lost, kept, torn at each prefix}
      to the writes issued since the last sync; invariants Recoverable, DurableRootsSound,
      CleanReopen, NothingNewerVisible, WithinAlloc.  Spec mutants (no first sync, no slot
-     alternation, no checksum, generation not incremented) must be rejected by TLC.
+     alternation, no checksum, generation not incremented, no wipe of an invalid slot on open)
+     must be rejected by TLC.
 I2S  the I/O log recorded from the real `LinearStorageProvider<FileManager>` (hook
      storage/linear/libc/verif.rs) while a real multi-commit workload runs must be a behaviour
      of Trace_LinearFile (same actions, real constants, logged offsets / decoded root bound).
@@ -45,11 +46,11 @@ ASSUMPTIONS = [
     "writes issued since the last sync may persist in any subset and order; a single pwrite may persist as any byte prefix (torn); nothing else alters the file",
     "a torn root (any mix of new prefix and old suffix bytes) fails the SipHash checksum",
     "the directory entry of the graph file is durable once the file's first fsync returned (true on ext4/xfs/btrfs; POSIX does not promise it and the code never fsyncs the directory)",
-    "one crash per history in the quick tier; a second crash after recovery is explored at spec level only (MC_LinearFile_recrash.cfg, see design_findings)",
+    "S2I crash images come from one crash per recorded history; a second crash after recovery is covered by MC_LinearFile_recrash.cfg (spec) and the directed `recrash` scenarios (real code)",
 ]
 
 MC_ACTIONS = ["Create", "Fallocate", "Fsync", "AppendGrow", "AppendHdr", "AppendHdrAfterGrow", "AppendBody",
-              "Sync1", "RootHdr", "RootBody", "Sync2", "Crash", "Open"]
+              "Sync1", "RootHdr", "RootBody", "Sync2", "Crash", "Open", "Scrub", "ScrubSync"]
 ORDER = {"commit": 0, "ret": 1, "plan": 2}
 
 
@@ -115,6 +116,9 @@ def run(ctx):
 
     if ctx.replay:
         case = json.load(open(ctx.replay))["case"]["input"]
+        if "p1" in case:
+            ctx.absorb(ctx.run_engine(vh, "recrash", [case], tag="recrash"))
+            return
         if case.get("t") == "trace":
             d, obs = record(ctx, vh, case["workload"], dense, case["workload"])
             ctx.cov["i2s"] = i2s(ctx, d, case["workload"])
@@ -129,7 +133,7 @@ def run(ctx):
     # ---- MC: the design admits no bad crash --------------------------------------------
     r = ctx.tlc("LinearFile", "MC_LinearFile_thorough.cfg" if ctx.thorough else "MC_LinearFile.cfg", timeout=1500)
     ctx.require_actions(r, MC_ACTIONS + (["Close"] if ctx.thorough else []))
-    mutants = ["nosync1", "noalt", "nochecksum", "nogen"] if ctx.thorough else []
+    mutants = ["nosync1", "noalt", "nochecksum", "nogen", "noscrub"] if ctx.thorough else []
     rejected = []
     for m in mutants:
         mr = ctx.tlc("LinearFile", "MC_LinearFile_mut_%s.cfg" % m, allow_violation=True, coverage=False, timeout=600)
@@ -138,20 +142,26 @@ def run(ctx):
                                   % (m, mr.violated))
         rejected.append(m)
     ctx.cov["spec_mutants_rejected"] = rejected
-    findings = []
     if ctx.thorough:
-        rr = ctx.tlc("LinearFile", "MC_LinearFile_recrash.cfg", allow_violation=True, coverage=False, timeout=600)
-        if rr.violated:
-            findings.append("two crashes (MC_LinearFile_recrash.cfg, %s violated): crash 1 persists the root BODY of an "
-                            "aborted commit without its 4-byte length prefix (slot undecodable, previous commit recovered); "
-                            "the next commit overwrites the aborted commit's data and its root write persists only the "
-                            "length prefix at crash 2: the stale root body becomes decodable, has the newest generation "
-                            "and references overwritten data. Needs sub-sector reordering of two adjacent pwrites; "
-                            "not reachable with one crash." % rr.violated)
-    ctx.cov["design_findings"] = findings
+        # two crashes (crash, recover, commit, crash): passes only because open wipes an invalid slot
+        ctx.tlc("LinearFile", "MC_LinearFile_recrash.cfg", coverage=False, timeout=900)
+    ctx.cov["design_findings"] = [
+        "StaleRootRevival (LinearFile.tla header): found by TLC with two crashes on the spec without Scrub "
+        "(MC_LinearFile_mut_noscrub.cfg), reproduced on the real code by `vh-crash recrash`, fixed in /repo "
+        "(Writer::open wipes a root slot that holds no valid root); see known_findings.d/crash.json"]
+
+    # ---- two crashes on the real code: the TLC counterexample class, every lost/kept combination
+    #      of the root's length prefix and body at both crashes
+    combos = [{"p1": p1, "p2": p2, "variant": v} for v in range(6 if ctx.thorough else 3)
+              for p1 in ([0, 0], [0, 1], [1, 0], [1, 1]) for p2 in ([0, 0], [0, 1], [1, 0], [1, 1])]
+    rres = ctx.run_engine(vh, "recrash", combos, tag="recrash")
+    if len(rres) < len(combos) and all(x.get("ok") for x in rres):
+        raise verif.ToolError("recrash engine returned too few results")
+    ctx.absorb(rres)
+    ctx.cov["recrash_scenarios"] = len(combos)
 
     # ---- the recorded workload ---------------------------------------------------------
-    workloads = [("thorough" if ctx.thorough else "quick", None)]
+    workloads = [("thorough", 60000)] if ctx.thorough else [("quick", None)]
     if ctx.thorough:
         workloads.append(("bulk", 260))
     cov_w = {}
@@ -226,7 +236,7 @@ def run(ctx):
         os.makedirs(d2, exist_ok=True)
         open(os.path.join(d2, "crashlog.ndjson"), "w").write("".join(json.dumps(e) + "\n" for e in keep))
         it2 = plans(ctx, d2, "selftest-nosync", exhaustive=0, cap=1, samples=2)
-        pts = sorted({it["pt"] for it in it2 if it["t"] == "plan" and len(it["allowed"]) == 2})[:3]
+        pts = sorted({it["pt"] for it in it2 if it["t"] == "plan" and len(it["allowed"]) == 2 and it["allowed"][0] >= 2})[:3]
         it2 = [it for it in it2 if it["t"] == "commit" or (it["t"] == "plan" and it["pt"] in pts)]
         sres = replay(ctx, vh, it2, wl, dense, obs["digest"], "selftest-nosync")
         if all(x.get("ok") for x in sres):
